@@ -640,7 +640,7 @@ def c08_extra(ctx):
         h.key = "filter_chain"
     hs += chain
     # one stream record per consumed instruction, in order, also when two lines carry the same address
-    recs = record_harnesses(tier())[:2]
+    recs = record_harnesses(tier())[:3]
     for h in recs:
         h.key = "stream_one_record_per_instruction"
     hs += recs
@@ -674,6 +674,36 @@ def record_harnesses(t):
 
     T = 60 if t == "quick" else 240
     hs = []
+    # the NUMBER of instructions (0-3) and of interleaved byte-continuation pseudo instructions (0-2) symbolic: zero
+    # instructions give the empty stream, n instructions give n records
+    src = '''def record_count(n: int, k: int, a1: str, m1: str, o1: str) -> bool:
+    """
+    pre: 0 <= n <= 3 and 0 <= k <= 2
+    pre: len(a1) == 1 and len(m1) == 2 and len(o1) == 1
+    pre: m1 != "empty"
+    post: _
+    """
+    obs = MatchedObserver()
+    c = CompleteConsumer("r", obs, MatchingSearchMode.first_find, False)
+    c.add_observer(RemoveEmptyInstructions())
+    want = ""
+    if k >= 1:
+        c.consume_instruction(Instruction("7", "empty", []))
+    if n >= 1:
+        c.consume_instruction(Instruction(a1, m1, [o1]))
+        want += a1 + "::" + m1 + "," + o1 + ",|"
+    if k >= 2:
+        c.consume_instruction(Instruction("8", "empty", []))
+    if n >= 2:
+        c.consume_instruction(Instruction("9", m1, []))
+        want += "9::" + m1 + ",,|"
+    if n >= 3:
+        c.consume_instruction(Instruction(a1, "ret", [o1, o1]))
+        want += a1 + "::ret," + o1 + "," + o1 + ",|"
+    c.finalize()
+    return obs.stringified_instructions == want
+'''
+    hs.append(ch.H("c10/record_count", src, timeout=T, prelude=C10_PRE, key="record_format", note="0-3 instructions with 0-2 byte-continuation pseudo instructions in between: n instructions give n records, none gives the empty stream"))
     tuples = [(1, 1, 1, 1, 1, 1), (2, 2, 2, 2, 2, 2), (1, 2, 0, 1, 2, 1), (2, 1, 1, 0, 1, 2)]
     if t == "thorough":
         tuples += [(3, 3, 3, 3, 3, 3), (1, 4, 2, 0, 3, 1), (4, 1, 0, 0, 1, 4)]
@@ -722,6 +752,13 @@ def c10_extra(ctx):
     run.count("traces_validated_against_impl")
     if got != "2000::nop,,|2001::ret,,|":
         run.failure("record_format/after_failed_run", f"stream of a run that follows a failed run: {got!r}", {"kind": "lx_stream", "text": got})
+    # listings without any instruction line (what objdump prints for an all-zero or data-only section): NO stream instruction
+    for nm, text in (("all_zero_section", "\nz.o:     file format elf64-x86-64\n\n\nDisassembly of section .text:\n\n0000000000000000 <pad>:\n\t...\n"), ("header_only", "\nprog:     file format elf64-x86-64\n\n"), ("empty_file", ""), ("continuation_only", "    4010:\t00 00 \n")):
+        got = jasmapi.file_route_stream(text)
+        found = jasmapi.run_pipeline({"pattern": [{"$not": ["call"]}]}, text, all_matches=True)
+        run.count("traces_validated_against_impl")
+        if got != "" or found:
+            run.failure("filter_chain/NO-INSTRUCTIONS", f"a listing without instruction lines ({nm}) gives the stream {got!r} (a rule matching any one instruction finds {found}); expected no stream instruction", {"kind": "lx_stream", "lines": text.split("\n"), "expected": ""})
     # relocatable objects / archives: addresses restart at 0 in every section, records are NOT keyed by address
     two = "".join(f"Disassembly of section {sec}:\n\n0000000000000000 <{sym}>:\n   0:\t55                   \tpush   %rbp\n   1:\t{b:<21}\t{t}\n   {a}:\tc3                   \tret\n\n" for sec, sym, b, t, a in ((".text", "f", "48 89 e5", "mov    %rsp,%rbp", "4"), (".init.text", "g", "31 c0", "xor    %eax,%eax", "3"), (".exit.text", "h", "90", "nop", "2")))
     got = jasmapi.file_route_stream(two)
